@@ -180,7 +180,9 @@ def work_embed(case):
         Z.external(pe)
         jplans = [pe] + jplans
     cj = Z.build(jplans, order=order)
-    ej = emit(cj)
+    ej = emit(cj, maxtime=1)        # really solved for one period
+    if ej.text and ej.err is not None:
+        rec['obs'].append({'kind': 'builds', 'what': 'joint model cannot be solved: %r' % (ej.err,), 'verdict': 'sat', 'structural': {'error': repr(ej.err)[:200]}})
     if not ej.text:
         rec['obs'].append({'kind': 'builds', 'what': 'joint build raises %r' % (ej.err,), 'verdict': 'sat', 'structural': {'error': repr(ej.err)}})
         return rec
@@ -241,7 +243,9 @@ def work_builders(case):
     rec = {'plan': 'builders:' + '+'.join(names) + (':book-exogenous' if book_exo else ''), 'case': 'builders', 'obs': [], 'solver_s': 0.0, 'queries': 0}
     codes = ['K%d' % i for i in range(len(names))]
     cj = builder_model(names, codes, book_exo)
-    ej = emit(cj)
+    # with the book's exogenous paths and initial stocks the joint model is really solved for two periods (a joint model that cannot be solved is a
+    # failure too); without them the PC / REG portfolio equations divide by a zero wealth in every period, alone as well, so only the equations are emitted
+    ej = emit(cj, maxtime=2 if book_exo else 0)
     if not ej.text or ej.err is not None:
         rec['obs'].append({'kind': 'builds', 'what': 'joint model of bundled builders fails: %r' % (ej.err,), 'verdict': 'sat',
                            'structural': {'error': repr(ej.err)[:200]}})
